@@ -5,7 +5,7 @@
    A session is accepted iff it is consumed to the end (<<"DONE", tid>>); a call that raised has no
    action in the specification (C04).  Monitors stay total: a raised call is also reported as
    <<"FAIL", tid, "C04.noraise">> so that the failing clause is named. *)
-EXTENDS Eyecite, Json, IOUtils
+EXTENDS Eyecite, Json, IOUtils, Hits
 Traces == JsonDeserialize(IOEnv.TRACE_FILE)
 NT == Len(Traces)
 VARIABLES tid, l, bucket
@@ -35,7 +35,12 @@ TSpec == TInit /\ [][TNext]_tvars
 
 Raised == (tid # 0 /\ l <= Len(Traces[tid].events) /\ Ev(tid, l).raised # "")
              => PrintT(<<"FAIL", tid, "C04.noraise">>)
-Done == (tid # 0 /\ l = Len(Traces[tid].events) + 1) => PrintT(<<"DONE", tid>>)
+ClauseSeq == <<"C04.noraise">>
+ASSUME PrintT(<<"CLAUSES", ToJson(ClauseSeq)>>)
+(* a session is non-trivial when citations were found, resolved and annotated (Hits.tla) *)
+NonTrivial(t) == \E k \in DOMAIN Traces[t].events : Traces[t].events[k].ev = "get_citations" /\ Traces[t].events[k].cites # <<>>
+Done == (tid # 0 /\ l = Len(Traces[tid].events) + 1) =>
+           (PrintT(<<"DONE", tid>>) /\ PrintT(<<"HIT", tid, Mask(<<NonTrivial(tid)>>)>>))
 (* how far each session got: the last state of the longest matched prefix *)
 Progress == tid # 0 => PrintT(<<"AT", tid, l>>)
 =============================================================================
